@@ -23,8 +23,8 @@ class C18(BaseCheck):
   ASSUMPTIONS = ('percentile bounds allow 1e-9 relative slack for the linear interpolation',)
   QUICK_CASES = 720
   THOROUGH_CASES = 40000
-  QUICK_WALL = 45
-  THOROUGH_WALL = 300
+  QUICK_WALL = 180
+  THOROUGH_WALL = 1800
   MIN_DISTINCT = 10
 
   def setup(self, env, tier):
